@@ -72,6 +72,16 @@ func NewReader(c *sim.Ctx, data []byte, m Mode) *Reader {
 	return &Reader{c: c, data: data, limit: len(data), EndErr: io.EOF, mode: m}
 }
 
+// Reset re-arms THE SAME reader object with a new stream (as programs do with
+// bytes.Reader.Reset or bufio.Reader.Reset): whatever a library remembers about
+// a reader by its identity must not outlive the stream it was reading.
+func (r *Reader) Reset(data []byte, m Mode) *Reader {
+	c := r.c
+	*r = Reader{c: c, data: data, limit: len(data), EndErr: io.EOF, mode: m}
+	c.Count("probe.same-reader-object-re-armed-with-a-new-stream")
+	return r
+}
+
 // WithPlan makes the schedule explicit (exhaustive sweeps) instead of tape-drawn.
 func (r *Reader) WithPlan(p *Plan) *Reader { r.plan = p; return r }
 
